@@ -15,7 +15,9 @@ use std::time::Duration;
 // ------------------------------------------------------------ value generators
 
 pub fn gen_string(rng: &mut Rng, for_path: bool) -> (String, &'static str) {
-    let (s, class): (String, &'static str) = match rng.below(12) {
+    let (s, class): (String, &'static str) = match rng.below(13) {
+        // the neighbours of the two dot segments are ordinary strings
+        12 => (rng.pick(&["...", "....", "......", ". .", "..a", "a..", ".x.", "...."]).to_string(), "dots"),
         0 => ("hello".into(), "ascii"),
         1 => ("two words and  double".into(), "spaces"),
         2 => ("/?#&=+%;:@,$!'()*[]".into(), "reserved"),
